@@ -241,6 +241,7 @@ func (r *DeviceLocal) RemoveEntity(entity api.EntityLocalInterface) {
 	entity.RemoveAllUseCaseSupports()
 	entity.RemoveAllSubscriptions()
 	entity.RemoveAllBindings()
+	r.removeRemoteSubscriptionsAndBindings(entity)
 
 	if heartbeatMgr := entity.HeartbeatManager(); heartbeatMgr != nil {
 		heartbeatMgr.StopHeartbeat()
@@ -260,6 +261,33 @@ func (r *DeviceLocal) RemoveEntity(entity api.EntityLocalInterface) {
 	r.mux.Unlock()
 
 	r.notifySubscribersOfEntity(entity, model.NetworkManagementStateChangeTypeRemoved)
+}
+
+// the subscriptions and bindings of remote features to the features of a local entity end with that entity,
+// an entity added later with the same address starts without subscribers and without bindings
+func (r *DeviceLocal) removeRemoteSubscriptionsAndBindings(entity api.EntityLocalInterface) {
+	for _, remoteDevice := range r.RemoteDevices() {
+		for _, item := range r.subscriptionManager.Subscriptions(remoteDevice) {
+			if item.ServerFeature == nil || item.ClientFeature == nil || item.ServerFeature.Entity() != entity {
+				continue
+			}
+			data := model.SubscriptionManagementDeleteCallType{
+				ClientAddress: item.ClientFeature.Address(),
+				ServerAddress: item.ServerFeature.Address(),
+			}
+			_ = r.subscriptionManager.RemoveSubscription(data, remoteDevice)
+		}
+		for _, item := range r.bindingManager.Bindings(remoteDevice) {
+			if item.ServerFeature == nil || item.ClientFeature == nil || item.ServerFeature.Entity() != entity {
+				continue
+			}
+			data := model.BindingManagementDeleteCallType{
+				ClientAddress: item.ClientFeature.Address(),
+				ServerAddress: item.ServerFeature.Address(),
+			}
+			_ = r.bindingManager.RemoveBinding(data, remoteDevice)
+		}
+	}
 }
 
 func (r *DeviceLocal) Entities() []api.EntityLocalInterface {
